@@ -4,6 +4,7 @@ import KojenVerif.Lemmas.EngineSig
 import KojenVerif.Lemmas.EnginePgt
 import KojenVerif.Lemmas.EngineNestedWF
 import KojenVerif.Lemmas.EngineProto
+import KojenVerif.Lemmas.EngineSecondWF
 import KojenVerif.Lemmas.Str
 /-
   C16 — template engine: per-element blocks expand once per element, in model order.
@@ -30,6 +31,10 @@ import KojenVerif.Lemmas.Str
   transition of the pair, the state's and the event's names substituted on the way down.
   Struct / protocol-message / message blocks whose lines carry name and counter tags are covered by
   `C16_struct_message_block`.
+  All of it composed over a whole file: `C16_second_filtering` — `expand_secondfiltering` on a file
+  of items (lines, blocks of every kind, nested transition blocks, and the conditionals / loops of
+  C17 passing through) puts the initial state's name in place and replaces every block, in place, by
+  its expansion; everything else is left as written.
   Claimed through the correspondence and the reference expander only, not yet proved: lines with
   signature / member / documentation / attribute / payload tags (their text comes from the language
   back ends, C09 / C10 / C12) (see DESIGN.md 6/C16 staging).
@@ -195,6 +200,105 @@ theorem C16_nested_transitions (t : List Table.Row) (body : List Spec.PstItem) (
     pstExpand t ((body.map Spec.PstItem.render).flatten) [] = some ((Spec.expandPst t body).map Spec.BItem.render) :=
   pstExpand_eq t body h
 
+/-- **The second filtering of a whole file.**  For every model and every file of items inside the
+    grammar (`SecondOK`, decidable: `secondOKB_sound`; it asks of every pass that the file - as the
+    earlier passes left it - contains no stray delimiter of that pass and that the pass's own blocks
+    lie inside the grammar of the block theorems above), the engine's `expand_secondfiltering`
+    yields the file with `STATE_0` / `state_0` replaced by the initial state's name and every block
+    replaced in place by the specification's expansion (`Spec.expandBlock`, `Spec.expandPst`), in
+    the order of the nine passes; lines outside blocks, conditionals and loops are untouched. -/
+theorem C16_second_filtering (env : Env) (ht : EnvTotal env) (m : Spec.Model) (items : List Spec.Item)
+    (h : SecondOK m items) :
+    expandSecond env (toSm m) (Spec.renderFile items) = some (Spec.renderFile (secondOut m items)) :=
+  expandSecond_items env ht m items h
+
+/-- what is left after the second filtering contains no block any more: only lines, conditionals, loops -/
+theorem C16_second_filtering_flat (m : Spec.Model) (items : List Spec.Item) :
+    ∀ it ∈ secondOut m items, match it with | .block _ _ _ => False | .pst _ _ => False | _ => True := by
+  -- every pass removes its own kind and introduces only plain lines
+  have keep : ∀ (ps : List Pass) (its : List Spec.Item) (it : Spec.Item), it ∈ runPasses m ps its →
+      (match it with
+       | .block k _ _ => Pass.kind k ∉ ps ∧ ∃ ws b, Spec.Item.block k ws b ∈ its
+       | .pst _ _ => Pass.pst ∉ ps ∧ ∃ ws b, Spec.Item.pst ws b ∈ its
+       | _ => True) := by
+    intro ps
+    induction ps with
+    | nil =>
+      intro its it hit
+      cases it with
+      | block k ws b => exact ⟨by simp, ws, b, hit⟩
+      | pst ws b => exact ⟨by simp, ws, b, hit⟩
+      | b i => trivial
+      | cond ws brs els => trivial
+      | loop ws pr body => trivial
+    | cons p ps ih =>
+      intro its it hit
+      have := ih (its.flatMap (passOut m p)) it hit
+      cases it with
+      | b i => trivial
+      | cond ws brs els => trivial
+      | loop ws pr body => trivial
+      | block k ws b =>
+        obtain ⟨hn, ws', b', hm⟩ := this
+        rw [List.mem_flatMap] at hm
+        obtain ⟨src, hsrc, hout⟩ := hm
+        cases src with
+        | block k2 ws2 b2 =>
+          simp only [passOut] at hout
+          by_cases hp : p = .kind k2
+          · simp only [hp, if_true, List.mem_map] at hout
+            obtain ⟨x, _, hx⟩ := hout; cases hx
+          · simp only [hp, if_false, List.mem_singleton] at hout
+            cases hout
+            refine ⟨?_, _, _, hsrc⟩
+            simp only [List.mem_cons, not_or]
+            exact ⟨fun e => hp e.symm, hn⟩
+        | pst ws2 b2 =>
+          simp only [passOut] at hout
+          by_cases hp : p = .pst
+          · simp only [hp, if_true, List.mem_map] at hout
+            obtain ⟨x, _, hx⟩ := hout; cases hx
+          · simp only [hp, if_false, List.mem_singleton] at hout; cases hout
+        | b i => simp [passOut] at hout
+        | cond ws2 brs els => simp [passOut] at hout
+        | loop ws2 pr body => simp [passOut] at hout
+      | pst ws b =>
+        obtain ⟨hn, ws', b', hm⟩ := this
+        rw [List.mem_flatMap] at hm
+        obtain ⟨src, hsrc, hout⟩ := hm
+        cases src with
+        | pst ws2 b2 =>
+          simp only [passOut] at hout
+          by_cases hp : p = .pst
+          · simp only [hp, if_true, List.mem_map] at hout
+            obtain ⟨x, _, hx⟩ := hout; cases hx
+          · simp only [hp, if_false, List.mem_singleton] at hout
+            cases hout
+            refine ⟨?_, _, _, hsrc⟩
+            simp only [List.mem_cons, not_or]
+            exact ⟨fun e => hp e.symm, hn⟩
+        | block k2 ws2 b2 =>
+          simp only [passOut] at hout
+          by_cases hp : p = .kind k2
+          · simp only [hp, if_true, List.mem_map] at hout
+            obtain ⟨x, _, hx⟩ := hout; cases hx
+          · simp only [hp, if_false, List.mem_singleton] at hout; cases hout
+        | b i => simp [passOut] at hout
+        | cond ws2 brs els => simp [passOut] at hout
+        | loop ws2 pr body => simp [passOut] at hout
+  intro it hit
+  have := keep passOrder _ it hit
+  cases it with
+  | b i => trivial
+  | cond ws brs els => trivial
+  | loop ws pr body => trivial
+  | block k ws b =>
+    obtain ⟨hn, _⟩ := this
+    exact hn (by cases k <;> simp [passOrder])
+  | pst ws b =>
+    obtain ⟨hn, _⟩ := this
+    exact hn (by simp [passOrder])
+
 /-! non-vacuity: a state block over two states, with a blank line, counters and three cases -/
 section Example
 def exEnv : Env :=
@@ -253,6 +357,26 @@ example : pstExpand exTable ((exPst.map Spec.PstItem.render).flatten) [] =
           T " on Off in idle\n",
           T "    /* nothing to do */\n", T "    next = Run;\n", T "  \n", T "  done\n",
           T "state Run\n"] := by decide
+
+/-! non-vacuity of the whole-file theorem: lines, a state block, the nested transition block, a guard block -/
+def exModel : Spec.Model := { table := exTable, structNames := [], protoNames := [], msgNames := [] }
+def exItems : List Spec.Item :=
+  [ .b (.line [.lit (T "// starts in "), .tag (T "STATE_0") none]),
+    .block .ps (T "  ") exBody,
+    .b (.blank (T "")),
+    .pst (T "") exPst,
+    .block .pg (T "") [.line [.lit (T "bool "), .tag (T "GUARDNAME") none, .lit (T "();")]],
+    .b (.line [.lit (T "// end")]) ]
+set_option maxRecDepth 100000 in
+example : SecondOK exModel exItems := secondOKB_sound _ _ (by decide)
+set_option maxRecDepth 100000 in
+example : expandSecond exEnv (toSm exModel) (Spec.renderFile exItems) =
+    some ([T "// starts in Idle\n", T "  s Idle idle idle 0a\n", T "  s Run run run 1b\n", T "\n",
+           T "state Idle\n", T " on Go in idle\n",
+           T "  if (IsReady()) {\n", T "    Start\n", T "    next = Run;\n", T "  \n", T "  done\n",
+           T "    /* nothing to do */\n", T "  \n", T "  done\n",
+           T " on Off in idle\n", T "    /* nothing to do */\n", T "    next = Run;\n", T "  \n", T "  done\n",
+           T "state Run\n", T "bool IsReady();\n", T "// end\n"]) := by decide
 end Example
 
 end KojenVerif.C16
